@@ -813,27 +813,42 @@ FILE_PATHS = ["/file.txt", "/index.html", "/page", "/page.html", "/", "", "/sub"
               "/..html", "/...", "/sub/...", "/~", "/\\", "/sub\\inner.txt", "/\n", "/file.txt\n", "file.txt", "sub/", "x/../file.txt"]
 
 
+HDR_SHAPES = [
+    [b'Content-Disposition: form-data; name="f"'],
+    [b'Content-Disposition: form-data; name="f"; filename="a.txt"', b"Content-Type: text/plain"],
+    [b'content-disposition: form-data; name="\xc3\xa9"'],
+    [b'Content-Disposition: form-data; name="\xff"'],
+    [b'Content-Disposition: form-data;', b' name="cont"'],
+    [b'Content-Disposition: form-data; name=noquote; filename='],
+    [b"Content-Disposition form-data"],                         # no colon
+    [b'Content-Disposition: form-data; name="f"', b"garbage line"],   # second line without colon
+    [b"X-Other: 1"],                                            # no content-disposition
+    [b": empty-name"],
+    [b"\xff\xfe: \xff"],
+    [b'Content-Disposition: form-data; name="f"', b"", b""],
+    [b"   "],
+    [b'Content-Disposition: form-data; name="a"', b'Content-Disposition: form-data; name="b"'],
+    [b"Content-Disposition:"],
+    [b"Content-Disposition: ; name"],
+    # parameter shapes of Content-Disposition: RFC 5987 forms alone and beside the plain ones, no name, empty and
+    # path-like file names, repeated parameters
+    [b"Content-Disposition: form-data; name=\"f\"; filename*=utf-8''%e2%82%ac%20rates.txt"],
+    [b"Content-Disposition: form-data; name=\"f\"; filename=\"a.txt\"; filename*=utf-8''b.txt"],
+    [b"Content-Disposition: form-data; name*=utf-8''n; filename*=utf-8''x"],
+    [b"Content-Disposition: form-data; filename=\"nameless.bin\""],
+    [b"Content-Disposition: form-data; name=\"f\"; filename=\"\""],
+    [b"Content-Disposition: form-data; name=\"f\"; filename=\"C:\\\\Users\\\\me\\\\a.txt\""],
+    [b"Content-Disposition: form-data; name=\"f\"; filename=\"../../etc/passwd\""],
+    [b"Content-Disposition: form-data; name=\"f\"; filename=a; filename=b"],
+    [b"Content-Disposition: form-data; name=\"f\"; filename"],
+    [b"Content-Disposition: attachment; name=\"f\""],
+]
+
+
 def build_multipart(rng, boundary=b"XyZ"):
     """a multipart body built from parts whose headers are drawn from good and bad shapes"""
     nl = rng.choice([b"\r\n", b"\r\n", b"\r\n", b"\n", b"\r"])
-    hdr_shapes = [
-        [b'Content-Disposition: form-data; name="f"'],
-        [b'Content-Disposition: form-data; name="f"; filename="a.txt"', b"Content-Type: text/plain"],
-        [b'content-disposition: form-data; name="\xc3\xa9"'],
-        [b'Content-Disposition: form-data; name="\xff"'],
-        [b'Content-Disposition: form-data;', b' name="cont"'],
-        [b'Content-Disposition: form-data; name=noquote; filename='],
-        [b"Content-Disposition form-data"],                         # no colon
-        [b'Content-Disposition: form-data; name="f"', b"garbage line"],   # second line without colon
-        [b"X-Other: 1"],                                            # no content-disposition
-        [b": empty-name"],
-        [b"\xff\xfe: \xff"],
-        [b'Content-Disposition: form-data; name="f"', b"", b""],
-        [b"   "],
-        [b'Content-Disposition: form-data; name="a"', b'Content-Disposition: form-data; name="b"'],
-        [b"Content-Disposition:"],
-        [b"Content-Disposition: ; name"],
-    ]
+    hdr_shapes = HDR_SHAPES
     parts = []
     for _ in range(rng.randrange(0, 4)):
         h = rng.choice(hdr_shapes) if rng.random() < 0.6 else rng.choice(hdr_shapes[:6])
@@ -1005,6 +1020,13 @@ def cases(tier, rng):
         yield "deep-json", ["json", iface, 0, "application/json", b'{"a":[' * 60000 + b"1" + b"]}" * 60000]
         many = b"".join(b"--XyZ\r\nContent-Disposition: form-data; name=\"f%d\"\r\n\r\n%d\r\n" % (i, i) for i in range(330)) + b"--XyZ--\r\n"
         yield "many-parts", ["form", iface, 0, "multipart/form-data; boundary=XyZ", many]
+        # every part-header shape once on its own, and once after an ordinary field and before a file
+        for h in HDR_SHAPES:
+            one = b"--XyZ\r\n" + b"\r\n".join(h) + b"\r\n\r\nvalue\r\n"
+            yield "part-header-table", ["form", iface, 0, "multipart/form-data; boundary=XyZ", one + b"--XyZ--\r\n"]
+            yield "part-header-table", ["form", iface, 0, "multipart/form-data; boundary=XyZ",
+                                        b"--XyZ\r\nContent-Disposition: form-data; name=\"t\"\r\n\r\n1\r\n" + one
+                                        + b"--XyZ\r\nContent-Disposition: form-data; name=\"u\"; filename=\"u.bin\"\r\n\r\n\x00\r\n--XyZ--\r\n"]
         # volume: a client may send any NUMBER of fields, cookies, media ranges, array items (count limits of the stdlib
         # parsers, e.g. parse_qsl(max_num_fields=...), raise ValueError when exceeded)
         for n in (1000, 1001, 5000):
